@@ -740,3 +740,92 @@ func c14r6(rc *core.RC) {
 		rc.Unknown("json/decode-entry-points", token.NoPos, "found %d of 4 decode entry points", n)
 	}
 }
+
+// ---- C14.R7 tables of compiled programs are keyed by the type's identity ----
+
+// Every table that maps a type to what was compiled for it (decoders, opcode sets, struct codes, recursive programs,
+// the in-progress tables that resolve recursive definitions) is keyed by the address of the type descriptor. A key
+// derived from the type's printed name identifies two different types that print alike (same-named packages,
+// same-named function-local types) and hands one type's program to values of the other.
+func c14r7(rc *core.RC) {
+	p := rc.P
+	programLike := func(t types.Type) bool {
+		s := t.String()
+		for _, suf := range []string{"decoder.Decoder", "decoder.structDecoder", "encoder.OpcodeSet", "encoder.StructCode", "encoder.Opcodes", "encoder.CompiledCode", "encoder.Opcode", "encoder.Code"} {
+			if strings.HasSuffix(s, suf) {
+				return true
+			}
+		}
+		return false
+	}
+	n := 0
+	seen := map[string]bool{}
+	for _, short := range []string{"decoder", "encoder"} {
+		pk := p.Pkg(short)
+		if pk == nil {
+			continue
+		}
+		for _, f := range pk.Syntax {
+			// the struct field a map type belongs to, if any
+			fieldOf := map[ast.Expr]string{}
+			ast.Inspect(f, func(m ast.Node) bool {
+				if fl, ok := m.(*ast.Field); ok && len(fl.Names) > 0 {
+					fieldOf[fl.Type] = fl.Names[0].Name
+				}
+				// Field: map[K]V{} in a struct literal
+				if kv, ok := m.(*ast.KeyValueExpr); ok {
+					if id, isIdent := kv.Key.(*ast.Ident); isIdent {
+						if cl, isLit := core.Unparen(kv.Value).(*ast.CompositeLit); isLit && cl.Type != nil {
+							fieldOf[cl.Type] = id.Name
+						}
+						if c, isCall := core.Unparen(kv.Value).(*ast.CallExpr); isCall && len(c.Args) > 0 {
+							fieldOf[c.Args[0]] = id.Name // make(map[K]V)
+						}
+					}
+				}
+				return true
+			})
+			ast.Inspect(f, func(m ast.Node) bool {
+				mt, ok := m.(*ast.MapType)
+				if !ok {
+					return true
+				}
+				tv, has := pk.TypesInfo.Types[mt]
+				if !has {
+					return true
+				}
+				mp, isMap := tv.Type.Underlying().(*types.Map)
+				if !isMap || !programLike(mp.Elem()) {
+					return true
+				}
+				n++
+				encl := core.EnclosingFunc(pk, mt.Pos())
+				where := "package level"
+				if encl != nil {
+					where = p.FuncName(encl)
+				}
+				if fieldOf[mt] != "" {
+					where = "field " + fieldOf[mt]
+				}
+				key := fmt.Sprintf("%s/%s/%s keyed-by-type-identity", short, where, types.TypeString(mp, func(*types.Package) string { return "" }))
+				if seen[key] {
+					return true
+				}
+				seen[key] = true
+				kt := mp.Key().String()
+				switch {
+				case kt == "uintptr" || strings.HasSuffix(kt, "runtime.Type"):
+					rc.OK(key, mt.Pos(), "keyed by the type descriptor's address")
+				case fieldOf[mt] == "QueryCache":
+					rc.OK(key, mt.Pos(), "the per-type cache of filtered programs, keyed by the query's hash inside one type's OpcodeSet")
+				default:
+					rc.Bad(key, mt.Pos(), "a table of compiled programs (%s) is keyed by %s, not by the address of the type descriptor: two distinct types with the same key (types that print alike: same-named packages, same-named local types) get one program, and values of one are processed with the offsets and keys of the other", mp.Elem(), kt)
+				}
+				return true
+			})
+		}
+	}
+	if n < 12 {
+		rc.Unknown("module/program-tables", token.NoPos, "found %d map types with compiled programs as elements (confirmed: 25 occurrences)", n)
+	}
+}
